@@ -19,8 +19,8 @@ import (
 
 type fparams struct {
 	optional, explicit, application, private, set, lax bool
-	tag                                               *int
-	stringType                                        int
+	tag                                                *int
+	stringType                                         int
 }
 
 func parseParams(s string) (p fparams) {
